@@ -255,7 +255,7 @@ def by_constituency_checks(ctx, rng, count):
             # default overall evaluator (sum of the constituency results): must answer with a non-negative adjustment
             r2 = common.call_impl(lambda: core.LevelOverhangByConstituency(
                 constituency_evaluator=core.ByConstituency(ev, apportioner=ev)).calculate(votes, n_seats, prev_gains=direct), 10)
-            if not (r2[0] == 'ok' and r2[1] >= 0) and not (r2[0] == 'err' and r2[1] in (common.E['TIMEOUT'], common.E['VSE'])):
+            if not (r2[0] == 'ok' and r2[1] >= 0) and not (r2[0] == 'err' and r2[1] in (common.E['TIMEOUT'], common.E['VSE'], common.E['VALUE'])):  # VALUE: house 0
                 bad += 1
                 ctx.violations.append(dict(stream='by-constituency', case=dict(case, overall_evaluator=None), impl=str(r2), model='n/a',
                                            why='LevelOverhangByConstituency without overall_evaluator: %s' % (r2,)))
